@@ -44,6 +44,7 @@ type profile struct {
 	pStall     float64 // a wait that is followed by another layer loses the deliveries of one object and times out
 	pMassStall float64 // a wait with two or more objects times out with most of them still pending (default 0.06)
 	pEmpty     float64 // apply runs with an empty (or unrelated single-object) apply set: prune everything (default 0.06)
+	pLate      float64 // per wait group: late status deliveries while the group completes and the consumer is slow (default 0.06)
 }
 
 var profiles = map[string]profile{
@@ -62,9 +63,9 @@ var profiles = map[string]profile{
 	"C11": {name: "C11", runsMin: 1, runsMax: 2, pDestroy: 0.35, pNoPrune: 0.15, dry: []Dry{DNone, DNone, DNone, DClient},
 		pSSA: 0.15, pInvalid: 0.7, pBadGraph: 0.45, pLiveBad: 0.4, pDeps: 0.35, varied: false, pTimeouts: 0.1, faults: "none", pCRD: 0.15},
 	"C12": {name: "C12", runsMin: 1, runsMax: 2, pDestroy: 0.3, pNoPrune: 0.1, dry: []Dry{DNone},
-		pSSA: 0.15, pInvalid: 0.05, pBadGraph: 0.03, pLiveBad: 0.03, pDeps: 0.3, varied: true, pTimeouts: 0.6, faults: "none", pCancel: 0.6, pWatchErr: 0.2, pMassStall: 0.35},
+		pSSA: 0.15, pInvalid: 0.05, pBadGraph: 0.03, pLiveBad: 0.03, pDeps: 0.3, varied: true, pTimeouts: 0.6, faults: "none", pCancel: 0.6, pWatchErr: 0.2, pLate: 0.15, pMassStall: 0.35},
 	"C13": {name: "C13", runsMin: 1, runsMax: 3, pDestroy: 0.3, pNoPrune: 0.2, dry: []Dry{DNone, DNone, DNone, DNone, DClient, DServer},
-		pSSA: 0.2, pInvalid: 0.25, pBadGraph: 0.15, pLiveBad: 0.1, pDeps: 0.3, varied: true, pTimeouts: 0.4, faults: "pairs", pCancel: 0.25, pWatchErr: 0.3, pCRD: 0.1, pKeep: 0.25, pMassStall: 0.15},
+		pSSA: 0.2, pInvalid: 0.25, pBadGraph: 0.15, pLiveBad: 0.1, pDeps: 0.3, varied: true, pTimeouts: 0.4, faults: "pairs", pCancel: 0.25, pWatchErr: 0.3, pLate: 0.15, pCRD: 0.1, pKeep: 0.25, pMassStall: 0.15},
 }
 
 func chance(r *rand.Rand, p float64) bool { return r.Float64() < p }
@@ -94,6 +95,26 @@ func (p profile) emptyProb() float64 {
 	return 0.06
 }
 
+func (p profile) lateProb() float64 {
+	if p.pLate > 0 {
+		return p.pLate
+	}
+	return 0.06
+}
+
+// genLate: late status deliveries overlapping the completion of a wait group (see LateSpec).
+func genLate(r *rand.Rand, p profile, sc *Scenario, probe RunResult, off bool) {
+	sc.Late = nil
+	if off || sc.Opts.StatusEvents {
+		return
+	}
+	for k, w := range probe.Waits {
+		if len(w.Deliv) > 0 && chance(r, p.lateProb()) {
+			sc.Late = append(sc.Late, LateSpec{Wait: k, N: 1 + r.Intn(2), Off: r.Intn(4)})
+		}
+	}
+}
+
 func (p profile) keepProb() float64 {
 	if p.pKeep > 0 {
 		return p.pKeep
@@ -121,7 +142,7 @@ func quietKlog() {
 
 // ---- universe / cluster ---------------------------------------------------------------------
 
-func genUniverse(r *rand.Rand, p profile) Universe {
+func genUniverse(r *rand.Rand, p profile, mutOK bool) Universe {
 	var es []UEntry
 	add := func(prob float64, e UEntry) {
 		if chance(r, prob) {
@@ -162,6 +183,11 @@ func genUniverse(r *rand.Rand, p profile) Universe {
 		es = append(es, Entry("CustomResourceDefinition", "", crdMeta.Name), Entry("Bar", invNS, "bar-a"))
 	}
 	for i := range es {
+		// dependency references spelled as apply-time-mutation substitutions; only in histories
+		// without dry-run (there the source does not exist and the mutator fails)
+		if mutOK && !es[i].FInv && chance(r, 0.3) {
+			es[i].Mut = true
+		}
 		// spelling of the keep attribute: the two single spellings most of the time
 		if chance(r, 0.55) {
 			es[i].KeepVar = 3 + r.Intn(len(keepVariants)-3)
@@ -351,7 +377,16 @@ func genLocals(r *rand.Rand, p profile, u Universe, cur Cluster) []LObj {
 			}
 			l.Deps = append(l.Deps, d)
 		}
-		if len(l.Deps) > 0 && chance(r, p.pBadGraph/2) {
+		if u[l.ID].Mut {
+			// the mutation pass skips a repeated source silently (depends-on reports it): no duplicates
+			var d []int
+			for _, x := range l.Deps {
+				if !containsInt(d, x) {
+					d = append(d, x)
+				}
+			}
+			l.Deps = d
+		} else if len(l.Deps) > 0 && chance(r, p.pBadGraph/2) {
 			l.Deps = append(l.Deps, l.Deps[0]) // duplicate
 		}
 	}
@@ -366,7 +401,16 @@ func genLocals(r *rand.Rand, p profile, u Universe, cur Cluster) []LObj {
 	return ls
 }
 
-func genOpts(r *rand.Rand, p profile, k int, histSSA bool) Opts {
+func containsInt(l []int, x int) bool {
+	for _, y := range l {
+		if x == y {
+			return true
+		}
+	}
+	return false
+}
+
+func genOpts(r *rand.Rand, p profile, k int, histSSA, allowDry bool) Opts {
 	ssa := chance(r, p.pSSA)
 	if avoidRetention {
 		ssa = histSSA
@@ -374,6 +418,11 @@ func genOpts(r *rand.Rand, p profile, k int, histSSA bool) Opts {
 	o := Opts{Prune: !chance(r, p.pNoPrune), Policy: Policy(r.Intn(3)), ValPol: ValPol(r.Intn(2)),
 		Dry: p.dry[r.Intn(len(p.dry))], SSA: ssa, StatusEvents: chance(r, 0.25),
 		Prop: Prop(r.Intn(3)), StatusPolicyAll: chance(r, 0.3)}
+	if !allowDry {
+		o.Dry = DNone
+	} else if o.Dry == DNone {
+		o.Dry = p.dry[r.Intn(len(p.dry))] // histories that allow dry-run are fewer: draw again
+	}
 	if chance(r, p.pTimeouts) {
 		o.RecTimeout, o.PruneTimeout = chance(r, 0.7), chance(r, 0.7)
 		if p.pStall > 0 {
@@ -736,6 +785,29 @@ func orderDependent(u Universe, cur Cluster, sc Scenario) bool {
 			return true
 		}
 	}
+	// Graph.Dependents lists the depends-on spelled dependents first and the
+	// mutation-spelled ones after them (two passes); the model uses object order.
+	// The order decides Failed vs Skipped only when a graph-invalid and a valid
+	// dependent meet.
+	for _, a := range ids {
+		nInv, nVal, mut := 0, 0, false
+		for _, b := range ids {
+			for _, d := range edges[b] {
+				if d == a {
+					mut = mut || u[b].Mut
+					if invalid[b] {
+						nInv++
+					} else {
+						nVal++
+					}
+					break
+				}
+			}
+		}
+		if mut && nInv > 0 && nVal > 0 {
+			return true
+		}
+	}
 	return false
 }
 
@@ -766,6 +838,7 @@ type collector struct {
 	results   []RunResult // kept to look for late requests at the end
 	execs     int
 	twice     int
+	hung      int // runs that hit the watchdog; after three, no more late scripts (each hang costs the watchdog period)
 }
 
 // run executes a scenario on the store; with checkBoth it is first executed
@@ -796,6 +869,15 @@ func (c *collector) run(st *Store, sc Scenario) RunResult {
 	for _, f := range res.Failures {
 		c.failures = append(c.failures, f+" [in: "+sc.Text()+"]")
 	}
+	if res.Hung || (first != nil && first.Hung) {
+		c.hung++
+	}
+	if len(sc.Late) > 0 {
+		c.sum.Count("late:run-with-late-script")
+		if res.LateSent > 0 {
+			c.sum.Count("late:run-with-late-status-taken")
+		}
+	}
 	if n, ok := settleGoroutines(c.baseG, 300*time.Millisecond); !ok {
 		c.failures = append(c.failures, fmt.Sprintf("goroutine leak: %d goroutines after the run, %d before [in: %s]", n, c.baseG, sc.Text()))
 		c.baseG = n
@@ -821,6 +903,12 @@ func (c *collector) count(sc Scenario, res RunResult) {
 	}
 	if o.StatusPolicyAll {
 		s.Count("statuspolicy:all")
+	}
+	for _, l := range sc.Local {
+		if sc.Univ[l.ID].Mut && len(l.Deps) > 0 {
+			s.Count("mut:run-with-mutation-spelled-dependency")
+			break
+		}
 	}
 	s.Count(fmt.Sprintf("faults:%d", len(sc.Env.Faults)))
 	for _, f := range sc.Env.Faults {
@@ -890,6 +978,21 @@ type fixedRun struct {
 	faults   []FAddr
 	cancel   CancelPt
 	watchErr int // wait index + 1 (0 = none)
+	late     []LateSpec
+	stall    []int // ids that get no deliveries; their wait ends by its timeout
+}
+
+// dropStalled removes the deliveries of the stalled ids; their wait then ends by its timeout.
+func dropStalled(ds []SObs, stall []int, end WEnd) ([]SObs, WEnd) {
+	var keep []SObs
+	for _, d := range ds {
+		if containsInt(stall, d.ID) {
+			end = WTimeout
+		} else {
+			keep = append(keep, d)
+		}
+	}
+	return keep, end
 }
 
 func (c *collector) fixedHistory(u Universe, init Cluster, runs []fixedRun) {
@@ -899,7 +1002,15 @@ func (c *collector) fixedHistory(u Universe, init Cluster, runs []fixedRun) {
 		sc := Scenario{Univ: u, Local: fr.local, Opts: fr.opts}
 		probe := Probe(st, sc)
 		c.probes++
-		sc.Env = Env{WatchErrAt: fr.watchErr - 1, Waits: probe.Waits, Faults: fr.faults, Cancel: fr.cancel}
+		sc.Env = Env{WatchErrAt: fr.watchErr - 1, Waits: append([]WSched(nil), probe.Waits...), Faults: fr.faults, Cancel: fr.cancel}
+		for k := range sc.Env.Waits {
+			w := &sc.Env.Waits[k]
+			w.Deliv, w.End = dropStalled(w.Deliv, fr.stall, w.End)
+			if w.End == WTimeout && !fr.opts.RecTimeout && !fr.opts.PruneTimeout {
+				w.End = WCancel // nothing would ever end the wait
+			}
+		}
+		sc.Late = fr.late
 		res := c.run(st, sc)
 		c.count(sc, res)
 		h.Runs, h.Outs = append(h.Runs, sc), append(h.Outs, res.Out)
@@ -1028,6 +1139,32 @@ func (c *collector) corpus() {
 			CObj{ID: 1, UID: 1, Owner: OOurs, Ver: 1}.Applied(), CObj{ID: 2, UID: 2, Owner: OOurs, Ver: 1, Deps: []int{1}}.Applied()}},
 			[]fixedRun{{local: []LObj{{ID: 0, Ver: 1}}, opts: Opts{Prune: true, Policy: PMustMatch}, faults: []FAddr{{Kind: "FGet", I: 1, N: 0, Err: k}}}})
 	}
+	// 13. dependency references spelled as apply-time-mutation substitutions: b (mutation) -> a;
+	// c is a bystander whose depends-on reference is external (d is not applied)
+	ma, mb, mc, md := Entry("ConfigMap", invNS, "cm-a"), Entry("ConfigMap", invNS, "cm-b"), Entry("Secret", invNS, "sec-a"), Entry("ClusterRole", "", "cr-a")
+	mb.Mut = true
+	um := NewUniverse([]UEntry{ma, mb, mc, md}) // ids: 0 = cr-a, 1 = cm-a, 2 = cm-b (mut), 3 = sec-a
+	mutSet := []LObj{{ID: 1, Ver: 1}, {ID: 2, Ver: 1, Deps: []int{1}}}
+	withBystander := append(append([]LObj(nil), mutSet...), LObj{ID: 3, Ver: 1, Deps: []int{0}})
+	applyM := Opts{Prune: true, Policy: PMustMatch, RecTimeout: true}
+	skipM := Opts{Prune: true, Policy: PMustMatch, RecTimeout: true, ValPol: VSkipInvalid}
+	c.fixedHistory(um, Cluster{NextUID: 100}, []fixedRun{{local: mutSet, opts: applyM}, {local: mutSet, opts: applyM}, {opts: Opts{Destroy: true, Prune: true, Policy: PMustMatch}}})
+	c.fixedHistory(um, Cluster{NextUID: 100}, []fixedRun{{local: mutSet, opts: applyM, faults: []FAddr{{Kind: "FApply", I: 1}}}})
+	c.fixedHistory(um, Cluster{NextUID: 100}, []fixedRun{{local: mutSet, opts: applyM, stall: []int{1}}})
+	c.fixedHistory(um, Cluster{NextUID: 100}, []fixedRun{{local: withBystander, opts: skipM}, {local: withBystander, opts: skipM}})
+	c.fixedHistory(um, Cluster{NextUID: 100}, []fixedRun{{local: withBystander, opts: skipM, stall: []int{1}}})
+	c.fixedHistory(um, Cluster{NextUID: 100}, []fixedRun{{local: withBystander, opts: Opts{Prune: true, Policy: PMustMatch, SSA: true, ValPol: VSkipInvalid}}})
+	// 14. late status deliveries while a wait group completes and the consumer is slow:
+	// timeout ending (two objects pending), all-reconciled ending, cancel ending; apply and destroy
+	lateAll := []LateSpec{{Wait: 0, N: 2, Off: 0}, {Wait: 1, N: 2, Off: 1}}
+	both2 := []LObj{{ID: 0, Ver: 2}, {ID: 1, Ver: 2}}
+	c.fixedHistory(u, two, []fixedRun{{local: both2, opts: Opts{Prune: true, Policy: PMustMatch, RecTimeout: true}, stall: []int{0, 1}, late: lateAll}})
+	c.fixedHistory(u, two, []fixedRun{{local: both2, opts: Opts{Prune: true, Policy: PMustMatch, RecTimeout: true}, stall: []int{1}, late: lateAll}})
+	c.fixedHistory(u, two, []fixedRun{{local: both2, opts: Opts{Prune: true, Policy: PMustMatch}, late: lateAll}})
+	c.fixedHistory(u, two, []fixedRun{{local: both2, opts: Opts{Prune: true, Policy: PMustMatch}, stall: []int{0}, late: lateAll}})
+	c.fixedHistory(u, two, []fixedRun{{opts: Opts{Destroy: true, Prune: true, Policy: PMustMatch, PruneTimeout: true}, stall: []int{0, 1}, late: lateAll}})
+	c.fixedHistory(u, two, []fixedRun{{opts: Opts{Destroy: true, Prune: true, Policy: PMustMatch}, late: lateAll}})
+	c.fixedHistory(u, two, []fixedRun{{local: both2[:1], opts: Opts{Prune: true, Policy: PMustMatch, RecTimeout: true, PruneTimeout: true}, stall: []int{1}, late: lateAll}})
 	// a plain round trip: apply two, apply one (prune), destroy
 	c.fixedHistory(u, Cluster{NextUID: 100}, []fixedRun{
 		{local: []LObj{{ID: 0, Ver: 1}, {ID: 1, Ver: 1, Deps: []int{0}}}, opts: Opts{Prune: true, Policy: PMustMatch}},
@@ -1037,8 +1174,23 @@ func (c *collector) corpus() {
 
 // base generates one random base history (and, depending on the profile, its
 // fault variants).
+func b2i(b bool) int {
+	if b {
+		return 1
+	}
+	return 0
+}
+
 func (c *collector) base(r *rand.Rand, p profile, budget *int) {
-	u := genUniverse(r, p)
+	// dry-run is decided per history: only histories without any dry-run use the mutation spelling
+	nDry := 0
+	for _, d := range p.dry {
+		if d != DNone {
+			nDry++
+		}
+	}
+	allowDry := nDry > 0 && chance(r, []float64{0.5, 0.85}[b2i(2*nDry >= len(p.dry))])
+	u := genUniverse(r, p, !allowDry)
 	init := genCluster(r, p, u)
 	st := NewStore(u, init)
 	h := History{Univ: u, Initial: init}
@@ -1060,14 +1212,14 @@ func (c *collector) base(r *rand.Rand, p profile, budget *int) {
 		if prev != nil && chance(r, p.pIdentical) {
 			sc.Local, sc.Opts = prev.Local, prev.Opts
 		} else {
-			sc.Opts = genOpts(r, p, k, histSSA)
+			sc.Opts = genOpts(r, p, k, histSSA, allowDry)
 			if !sc.Opts.Destroy {
 				sc.Local = genLocals(r, p, u, cur)
 			}
 		}
 		for try := 0; orderDependent(u, cur, sc) && try < 6; try++ {
 			c.sum.Count("regenerated:order-dependent-shape")
-			sc.Opts = genOpts(r, p, k, histSSA)
+			sc.Opts = genOpts(r, p, k, histSSA, allowDry)
 			sc.Local = nil
 			if !sc.Opts.Destroy {
 				sc.Local = genLocals(r, p, u, cur)
@@ -1079,6 +1231,7 @@ func (c *collector) base(r *rand.Rand, p profile, budget *int) {
 		probe := Probe(st, sc)
 		c.probes++
 		sc.Env = genEnv(r, p, &sc.Opts, cur, probe)
+		genLate(r, p, &sc, probe, c.hung >= 3)
 		if k == enumAt {
 			c.variants(r, p, st, h, sc, probe, budget)
 		}
